@@ -120,6 +120,37 @@ func c07Classes(small bool) map[string][]c07Sc {
 					Red:   c07Red{Stop: -1, End: end}, Expect: c07NormalExpect(e, end)})
 			}
 		}
+		for _, e := range c07OutEntries {
+			for _, ov := range []string{"nil", "int0", "empty-string", "false", "nil-ptr", "empty-struct"} {
+				add(c07Sc{Class: "reducer-writes-zero-value", Entry: e, N: n, Workers: w, GenPanicAt: -1, OutVal: ov,
+					Items: c07Items(n, nil), Red: c07Red{Stop: -1, End: 1}, Expect: []string{"value"}})
+			}
+		}
+		if n == ew+1 {
+			// cancel(err) is executing (its drain took the probe item while all workers are parked), THEN the
+			// reducer writes: the statement promises the value only "without cancellation", so the error must win.
+			for _, e := range c07OutEntries {
+				for _, act := range []string{"cancel", "cancelnil"} {
+					exp := "err:0"
+					if act == "cancelnil" {
+						exp = "cancelnil"
+					}
+					started := ""
+					for i := 1; i < ew; i++ {
+						started += fmt.Sprintf("s%d,", i)
+					}
+					add(c07Sc{Class: "cancel-in-progress+reducer-write", Entry: e, N: n, Workers: w, GenPanicAt: -1, Probe: true,
+						Items: c07Items(n, func(i int, it *c07It) {
+							if i == 0 {
+								*it = c07It{W: 1, Act: act, Wait: started}
+							} else {
+								*it = c07It{W: 1, Act: "park", Wait: "rw"}
+							}
+						}), Red: c07Red{Early: 1, EarlyWait: "px", Stop: -1},
+						Expect: []string{"value", exp}, ExpectOrdered: []string{exp}})
+				}
+			}
+		}
 		if n > 1 {
 			for _, e := range []string{"MapReduce", "ForEach", "Finish", "MapReduceChan"} {
 				add(c07Sc{Class: "saturate", Entry: e, N: n, Workers: w, GenPanicAt: -1, Saturate: true,
@@ -368,7 +399,7 @@ func c07RunClasses(t *testing.T, m *vk.M, base int, small bool, rounds int, name
 	}
 }
 
-var c07CoreClasses = []string{"normal", "saturate", "reducer-stops-early", "reducer-early-output", "reducer-writes-twice",
+var c07CoreClasses = []string{"normal", "reducer-writes-zero-value", "cancel-in-progress+reducer-write", "saturate", "reducer-stops-early", "reducer-early-output", "reducer-writes-twice",
 	"mapper-cancel", "reducer-cancel", "first-cancel-wins", "mapper-panic", "three-mapper-panics", "generator-panic", "reducer-panic",
 	"ctx-done-mid-run", "ctx-done-before-call", "finish-error", "reducer-early-output+late-cancel"}
 
